@@ -1,14 +1,180 @@
 (* Property C11 — the wallet database gives atomic, isolated, ordered key/value transactions.
    Only statements here; each is closed by [exact] of a lemma proved in KV/Proofs.v and followed by
-   Print Assumptions.  Model: KV/Model.v (masswallet/db/db.go BytesPrefix/Update, masswallet/db/ldb/leveldb.go). *)
-From Coq Require Import List ZArith.
+   Print Assumptions.
+   Model: KV/Model.v — masswallet/db/db.go (BytesPrefix, Update) and masswallet/db/ldb/leveldb.go (batch, transaction,
+   levelBucket, batchIterator, levelIterator), one Gallina function per Go method.  goleveldb is environment:
+   DB.Get = [s_get], DB.Write(batch) = [apply_log] (atomic, in recording order), a range iterator = the ascending
+   entries of [lo,hi) of a snapshot ([range_entries]).
+   Vocabulary: [bytes_ok] / [keys_bytes] say "every element is a byte (0..255)" — the typing of Go's []byte, not a
+   restriction; [keys_sorted s] is the representation invariant of the store (an ordered map), [batch_wf b] the
+   invariant of ldb.batch (its puts/deletes/seq summary agrees with the recorded log); both hold in every state
+   reachable by any op sequence (C11_invariant_all_sequences). *)
+From Coq Require Import List ZArith Sorted.
 Import ListNotations.
 Open Scope Z_scope.
 Require Import MW.KV.Model MW.KV.Proofs.
 
-(* db.BytesPrefix: the range [prefix, limit) holds exactly the byte strings that have the prefix — also for
-   prefixes that end in, or consist of, 0xff bytes and for the empty prefix (limit absent) *)
+(* ---- atomicity *)
+(* Commit applies exactly the recorded log, Rollback nothing; db.Update with a failing function leaves the store as it
+   was, a succeeding one applies the whole log of what the function did *)
+Theorem C11_commit_all_or_nothing :
+  (forall s b, commit s b = apply_log s (b_log b)) /\
+  (forall s b, rollback s b = s) /\
+  (forall A (f : store -> batch -> result A * batch) s,
+     (forall e s', update s f = (Err e, s') -> s' = s) /\
+     (forall a s', update s f = (Ok a, s') -> s' = apply_log s (b_log (snd (f s empty_batch))))).
+Proof. exact (conj commit_is_apply_log (conj rollback_unchanged update_all_or_nothing)). Qed.
+Print Assumptions C11_commit_all_or_nothing.
+
+(* along ANY sequence of operations of the op language (bucket create/delete, put, delete, clear, reads, iterators,
+   commit, rollback, Update with or without error, reopen) the committed store changes at a commit only, and then by
+   the whole log at once: nothing of a write transaction is visible before, everything after *)
+Theorem C11_store_changes_only_at_commit : forall st o,
+  st_store (fst (step st o)) = st_store st \/
+  exists b, st_wtx st = Some b /\ (o = OCommit \/ o = OUEnd false) /\
+            st_store (fst (step st o)) = apply_log (st_store st) (b_log b).
+Proof. exact store_changes_only_at_commit. Qed.
+Print Assumptions C11_store_changes_only_at_commit.
+
+(* the invariants the other theorems assume hold after every op sequence *)
+Theorem C11_invariant_all_sequences : forall ops,
+  keys_sorted (st_store (run ops)) /\
+  match st_wtx (run ops) with Some b => batch_wf b | None => True end.
+Proof. exact run_inv. Qed.
+Print Assumptions C11_invariant_all_sequences.
+
+(* ---- read your writes *)
+(* the (last put, last delete, seq) summary the code keeps decides the log: batch.Get answers by the LAST operation
+   recorded for the key (put -> its value, delete -> deleted, none -> untouched) *)
+Theorem C11_summary_sound : forall b k, batch_ok b -> batch_view b k = view_of_rlog (b_rlog b) k.
+Proof. exact summary_sound. Qed.
+Print Assumptions C11_summary_sound.
+
+(* a point read inside a write transaction = a lookup in the store as it would be if the log so far were applied *)
+Theorem C11_read_your_writes : forall s b h k, batch_ok b -> k <> [] ->
+  bucket_get s (Some b) h k = s_get (inner_key (h_path h) k) (apply_log s (b_log b)).
+Proof. exact read_your_writes_get. Qed.
+Print Assumptions C11_read_your_writes.
+
+(* a prefix read inside a write transaction = as a set, the entries with that prefix in the store as it would be
+   after commit (own puts and overwrites included, own deletes excluded) *)
+Theorem C11_read_your_writes_prefix : forall s b h prefix, keys_sorted s -> keys_bytes s -> batch_wf b ->
+  bytes_ok (h_path h) -> bytes_ok prefix ->
+  forall k v, In (k, v) (get_by_prefix s (Some b) h prefix) <->
+              has_prefix prefix k = true /\ s_get (inner_key (h_path h) k) (apply_log s (b_log b)) = Some v.
+Proof. exact read_your_writes_prefix. Qed.
+Print Assumptions C11_read_your_writes_prefix.
+
+(* partial: whenever a bucket listing inside a write transaction succeeds it is, as a set, the values of the bucket
+   index entries under the listing prefix in the store as it would be after commit.  Missing for full strength: that
+   the listing never answers ErrIllegalValue in reachable states and that those entries are exactly the children
+   "b_<depth+1>_<path>_<name>" — this needs a store-wide well-formedness invariant of the index that is not proved;
+   the correspondence runs and the reference map cover it. *)
+Theorem C11_read_your_writes_names_partial : forall s b pfx d l, keys_sorted s -> keys_bytes s -> batch_wf b -> bytes_ok pfx ->
+  names_scan s (Some b) pfx d = Ok l ->
+  forall name, In name l <-> exists key, has_prefix pfx key = true /\ s_get key (apply_log s (b_log b)) = Some name.
+Proof. exact read_your_writes_names_scan. Qed.
+Print Assumptions C11_read_your_writes_names_partial.
+
+(* outside a write transaction reads see the committed store only *)
+Theorem C11_read_only_reads : forall s h,
+  (forall k, k <> [] -> bucket_get s None h k = s_get (inner_key (h_path h) k) s) /\
+  (keys_sorted s -> keys_bytes s -> bytes_ok (h_path h) -> forall prefix, bytes_ok prefix ->
+   forall k v, In (k, v) (get_by_prefix s None h prefix) <->
+               has_prefix prefix k = true /\ s_get (inner_key (h_path h) k) s = Some v).
+Proof.
+  exact (fun s h => conj (read_only_get s h) (fun Hs Hb Hp prefix Hpre => read_only_prefix s h prefix Hs Hb Hp Hpre)).
+Qed.
+Print Assumptions C11_read_only_reads.
+
+(* ---- isolation between buckets *)
+(* for the paths the API hands out ("<depth>_<name1>_..._<nameDepth>", names non-empty and free of '_') the stored key
+   determines the bucket and the user key, for ALL user keys: separators, digits that mimic a depth prefix, 0x00, 0xff *)
+Theorem C11_isolation : forall p1 p2 k1 k2, valid_path p1 -> valid_path p2 ->
+  inner_key p1 k1 = inner_key p2 k2 -> p1 = p2 /\ k1 = k2.
+Proof. exact inner_key_injective. Qed.
+Print Assumptions C11_isolation.
+
+Theorem C11_prefix_scan_stays_in_bucket : forall p1 p2 pre k, valid_path p1 -> valid_path p2 ->
+  has_prefix (inner_key p1 pre) (inner_key p2 k) = true -> p1 = p2 /\ has_prefix pre k = true.
+Proof. exact prefix_scan_in_bucket. Qed.
+Print Assumptions C11_prefix_scan_stays_in_bucket.
+
+(* bucket index entries and data entries never collide; handles produced by the API keep the canonical path form *)
+Theorem C11_index_data_disjoint : forall p1 p2 k, valid_path p2 -> index_key p1 <> inner_key p2 k.
+Proof. exact index_data_disjoint. Qed.
+Print Assumptions C11_index_data_disjoint.
+
+Theorem C11_handles_canonical :
+  (forall name, is_valid_bucket_name name = true -> handle_wf (mkHandle (top_path name) 1)) /\
+  (forall h name sub, handle_wf h -> sub_bucket h name = Ok sub -> handle_wf sub) /\
+  (forall h, handle_wf h -> valid_path (h_path h)).
+Proof. exact (conj top_handle_wf (conj sub_bucket_handle_wf handle_wf_valid_path)). Qed.
+Print Assumptions C11_handles_canonical.
+
+(* ---- ordered iteration *)
+(* db.BytesPrefix: [prefix, limit) holds exactly the byte strings with the prefix — also for prefixes ending in, or made
+   of, 0xff bytes and for the empty prefix (limit absent) *)
 Theorem C11_bytes_prefix : forall p k, bytes_ok p -> bytes_ok k ->
   in_range (fst (bytes_prefix p)) (snd (bytes_prefix p)) k = has_prefix p k.
 Proof. exact bytes_prefix_range. Qed.
 Print Assumptions C11_bytes_prefix.
+
+(* a read-only iterator over Range{start, limit} (empty limit = to the end of the bucket), advanced by Next() until it
+   answers false, yields exactly the committed entries of that bucket with start <= key < limit; strictly ascending,
+   hence each once *)
+Theorem C11_iter_exact : forall s h start limit, keys_sorted s -> keys_bytes s -> bytes_ok (h_path h) ->
+  let out := drain (S (length s)) (new_iterator s None h start limit) in
+  (forall k v, In (k, v) out <-> s_get (inner_key (h_path h) k) s = Some v /\ user_range start limit k = true) /\
+  StronglySorted (fun a b => blt (fst a) (fst b) = true) out.
+Proof. exact iter_exact. Qed.
+Print Assumptions C11_iter_exact.
+
+(* the same through NewIterator(db.BytesPrefix(p)): exactly the committed entries whose key has prefix p *)
+Theorem C11_iter_prefix_exact : forall s h p, keys_sorted s -> keys_bytes s -> bytes_ok (h_path h) -> bytes_ok p ->
+  let out := drain (S (length s)) (new_iterator s None h (fst (prefix_slice p)) (snd (prefix_slice p))) in
+  (forall k v, In (k, v) out <-> s_get (inner_key (h_path h) k) s = Some v /\ has_prefix p k = true) /\
+  StronglySorted (fun a b => blt (fst a) (fst b) = true) out.
+Proof. exact iter_prefix_exact. Qed.
+Print Assumptions C11_iter_prefix_exact.
+
+(* Seek(key) on such an iterator: the entry it lands on followed by everything Next() yields is exactly the committed
+   entries of the bucket in the range with key' >= key, ascending; it answers true iff there is one *)
+Theorem C11_seek : forall s h start limit key, keys_sorted s -> keys_bytes s -> bytes_ok (h_path h) ->
+  let r := iter_seek (new_iterator s None h start limit) key in
+  let out := iter_current (snd r) ++ drain (S (length s)) (snd r) in
+  (forall k v, In (k, v) out <->
+     s_get (inner_key (h_path h) k) s = Some v /\ user_range start limit k = true /\ ble key k = true) /\
+  StronglySorted (fun a b => blt (fst a) (fst b) = true) out /\
+  (fst r = true <-> out <> []).
+Proof. exact seek_exact. Qed.
+Print Assumptions C11_seek.
+
+(* ---- non-vacuity: the hypotheses are met by concrete reachable states, and the model computes *)
+Definition ex_ops : list op :=
+  [OBegin true; OCreateTop 0 [97]; OPut 0 [107; 95; 255] [118]; ONew 1 0 [50]; OPut 1 [98; 95; 107] [119]; OCommit;
+   OBegin true; OTop true 0 [97]; OPut 0 [107] [120]; ODel 0 [107; 95; 255]].
+Example C11_ex_run :
+  st_store (run ex_ops) =
+    [([49; 95; 97; 95; 107; 95; 255], [118]);           (* "1_a_k_\xff" -> "v" *)
+     ([50; 95; 97; 95; 50; 95; 98; 95; 107], [119]);    (* "2_a_2_b_k"  -> "w" *)
+     ([98; 95; 49; 95; 97], [97]);                      (* "b_1_a"      -> "a" *)
+     ([98; 95; 50; 95; 97; 95; 50], [50])]              (* "b_2_a_2"    -> "2" *)
+  /\ (exists b, st_wtx (run ex_ops) = Some b /\ b_log b = [BPut [49; 95; 97; 95; 107] [120]; BDel [49; 95; 97; 95; 107; 95; 255]]
+                /\ bucket_get (st_store (run ex_ops)) (Some b) (mkHandle [49; 95; 97] 1) [107] = Some [120]
+                /\ bucket_get (st_store (run ex_ops)) (Some b) (mkHandle [49; 95; 97] 1) [107; 95; 255] = None
+                /\ bucket_get (st_store (run ex_ops)) None (mkHandle [49; 95; 97] 1) [107; 95; 255] = Some [118]).
+Proof. vm_compute. split; [reflexivity|]. eexists. repeat split. Qed.
+Example C11_ex_valid_path : valid_path [50; 95; 97; 95; 50] /\ handle_wf (mkHandle [50; 95; 97; 95; 50] 2).
+Proof.
+  split.
+  - exists [[97]; [50]]. split; [discriminate|]. split; [repeat constructor|reflexivity].
+  - exists [[97]; [50]]. split; [discriminate|]. split; [repeat constructor|]. split; reflexivity.
+Qed.
+Example C11_ex_bytes_prefix :
+  bytes_prefix [97; 255; 255] = ([97; 255; 255], Some [98]) /\ bytes_prefix [255; 255] = ([255; 255], None) /\
+  bytes_prefix [] = ([], None) /\ bytes_prefix [97; 255; 98] = ([97; 255; 98], Some [97; 255; 99]).
+Proof. vm_compute. repeat split. Qed.
+Example C11_ex_iter :
+  drain 10 (new_iterator (st_store (run ex_ops)) None (mkHandle [49; 95; 97] 1) [] []) = [([107; 95; 255], [118])].
+Proof. vm_compute. reflexivity. Qed.
